@@ -29,6 +29,10 @@ pub struct Case {
     /// the allow / exclude list is present but empty (contents that otherwise carry no list)
     #[serde(default)]
     pub empty_list: bool,
+    /// 0 none; else 1 + 7 * op + status: the store fails every find (op 0) / save (1) / update (2)
+    /// call with status value number `status` of `drivers::status_value`
+    #[serde(default)]
+    pub fault: u8,
 }
 
 const RP: &str = "example.com";
@@ -36,7 +40,7 @@ const RP: &str = "example.com";
 pub fn cases(tier: Tier) -> Vec<Case> {
     let mut v = vec![];
     for c in super::c04::cases() {
-        if c.level != 0 || c.arc_mutex || c.ext {
+        if c.level != 0 || c.arc_mutex || c.ext || c.wire != 0 {
             continue;
         }
         // quick: the presence capability only shows in get_info; keep one value for the ceremonies
@@ -50,12 +54,19 @@ pub fn cases(tier: Tier) -> Vec<Case> {
                         continue;
                     }
                     let api = if c.op == Op::Make { "make_credential" } else { "get_assertion" };
-                    v.push(Case { api: api.into(), cfg: c.clone(), content, memory_store, prf, unknown_type: false, empty_list: false });
+                    v.push(Case { api: api.into(), cfg: c.clone(), content, memory_store, prf, unknown_type: false, empty_list: false, fault: 0 });
+                    // store failures with every status value of the menu, for the configurations in
+                    // which the user consents and a matching credential exists / none is excluded
+                    if !memory_store && !prf && c.outcome == 3 && c.cap == 2 && !c.pin && c.up && matches!(content, Content::MatchViaList | Content::NoMatch) {
+                        for fault in 1..=21u8 {
+                            v.push(Case { api: api.into(), cfg: c.clone(), content, memory_store, prf, unknown_type: false, empty_list: false, fault });
+                        }
+                    }
                     if matches!(content, Content::NoMatch | Content::MatchNoList | Content::TwoNoList) {
-                        v.push(Case { api: api.into(), cfg: c.clone(), content, memory_store, prf, unknown_type: false, empty_list: true });
+                        v.push(Case { api: api.into(), cfg: c.clone(), content, memory_store, prf, unknown_type: false, empty_list: true, fault: 0 });
                     }
                     if matches!(content, Content::MatchViaList | Content::OtherRpOnly | Content::TwoViaList) && !prf {
-                        v.push(Case { api: api.into(), cfg: c.clone(), content, memory_store, prf, unknown_type: true, empty_list: false });
+                        v.push(Case { api: api.into(), cfg: c.clone(), content, memory_store, prf, unknown_type: true, empty_list: false, fault: 0 });
                     }
                 }
             }
@@ -65,8 +76,8 @@ pub fn cases(tier: Tier) -> Vec<Case> {
         for presence_cap in [false, true] {
             for memory_store in [false, true] {
                 for prf in [false, true] {
-                    let cfg = C04Case { op: Op::Get, rk: false, up: true, uv: false, cap, presence_cap, outcome: 3, pin: false, arc_mutex: false, level: 0, uvreq: 0, ext: false };
-                    v.push(Case { api: "get_info".into(), cfg, content: Content::NoMatch, memory_store, prf, unknown_type: false, empty_list: false });
+                    let cfg = C04Case { op: Op::Get, rk: false, up: true, uv: false, cap, presence_cap, outcome: 3, pin: false, arc_mutex: false, level: 0, uvreq: 0, ext: false, wire: 0 };
+                    v.push(Case { api: "get_info".into(), cfg, content: Content::NoMatch, memory_store, prf, unknown_type: false, empty_list: false, fault: 0 });
                 }
             }
         }
@@ -158,7 +169,11 @@ where
             }
             let r = if via_trait { block_on(Ctap2Api::make_credential(&mut auth, req)) } else { block_on(auth.make_credential(req)) };
             match r {
-                Err(e) => format!("err:{:02x}", sc_byte(e)),
+                Err(e) => {
+                    // the status *value* is compared (two values share byte 0x00)
+                    let d = format!("{e:?}");
+                    format!("err:{:02x}:{d}", sc_byte(e))
+                }
                 Ok(r) => {
                     let a = r.auth_data.attested_credential_data.as_ref();
                     let labels: Vec<String> = a.map(|a| a.key.params.iter().map(|(l, _)| format!("{l:?}")).collect()).unwrap_or_default();
@@ -177,7 +192,11 @@ where
             }
             let r = if via_trait { block_on(Ctap2Api::get_assertion(&mut auth, req)) } else { block_on(auth.get_assertion(req)) };
             match r {
-                Err(e) => format!("err:{:02x}", sc_byte(e)),
+                Err(e) => {
+                    // the status *value* is compared (two values share byte 0x00)
+                    let d = format!("{e:?}");
+                    format!("err:{:02x}:{d}", sc_byte(e))
+                }
                 // signatures are deterministic (RFC 6979), so the whole response must agree
                 Ok(r) => format!("ok:{r:?}"),
             }
@@ -189,6 +208,12 @@ fn observe(c: &Case, via_trait: bool) -> Obs {
     let (items, list) = seeds(c.content);
     let list = if c.empty_list { Some(vec![]) } else { list };
     let log = Log::new();
+    if c.fault != 0 {
+        let (op, status) = (["find", "save", "update"][((c.fault - 1) / 7) as usize % 3], (c.fault - 1) % 7);
+        let shared = Shared::new(RefStore::with(items));
+        let result = call(c, FailValue { inner: Logging { inner: shared.clone(), log: log.clone() }, op, status }, via_trait, list, log.clone());
+        return Obs { result, store: norm_store(shared.recs()), log: norm_log(log.take()) };
+    }
     if c.memory_store {
         let m: MemoryStore = items.into_iter().map(|p| (p.credential_id.to_vec(), p)).collect();
         let shared = Arc::new(tokio::sync::Mutex::new(m));
@@ -293,7 +318,11 @@ fn run_seq(c: &SeqCase, via_trait: bool) -> (Vec<String>, Vec<(String, Option<Ve
                 let r = if via_trait { block_on(Ctap2Api::make_credential(&mut auth, req)) } else { block_on(auth.make_credential(req)) };
                 match r {
                     Ok(r) => format!("ok flags={:?} counter={:?}", r.auth_data.flags, r.auth_data.counter),
-                    Err(e) => format!("err:{:02x}", sc_byte(e)),
+                    Err(e) => {
+                    // the status *value* is compared (two values share byte 0x00)
+                    let d = format!("{e:?}");
+                    format!("err:{:02x}:{d}", sc_byte(e))
+                }
                 }
             }
             _ => {
@@ -309,7 +338,11 @@ fn run_seq(c: &SeqCase, via_trait: bool) -> (Vec<String>, Vec<(String, Option<Ve
                     // a credential created earlier in the sequence has a random id and key
                     Ok(r) if r.credential.as_ref().is_some_and(|d| *d.id == cred_id(1)[..]) => format!("ok:{r:?}"),
                     Ok(r) => format!("ok:fresh-credential flags={:?} counter={:?} user={:?} n={:?}", r.auth_data.flags, r.auth_data.counter, r.user.as_ref().map(|u| u.id.to_vec()), r.number_of_credentials),
-                    Err(e) => format!("err:{:02x}", sc_byte(e)),
+                    Err(e) => {
+                    // the status *value* is compared (two values share byte 0x00)
+                    let d = format!("{e:?}");
+                    format!("err:{:02x}:{d}", sc_byte(e))
+                }
                 }
             }
         };
@@ -410,7 +443,7 @@ pub fn run(ctx: &Ctx) -> Result<Run, String> {
     let stats = iso::run(&sp, &cfg)?;
     let mut run = Run::from_stats(
         "model_checking",
-        "differential enumeration: every configuration of the C04 product at CTAP2 level (operation, rk/up/uv, verification capability, validation outcome, pin-auth) x 4 store contents x {contract store, Arc<Mutex<MemoryStore>>} x PRF extension on/off x descriptor type {public-key, unknown}, and getInfo for every capability combination, plus all pairs (thorough: triples) of operations on ONE authenticator with a capability change in between (verification / presence / store capability), each run once through the inherent method and once through <Authenticator as Ctap2Api> on identically seeded authenticators inside isolated worker processes (8 MiB stack, 30 s watchdog); compared: result (status byte or full response incl. RFC 6979 signature bytes; fresh ids/keys normalised), store snapshot, store/user-validation call log. Non-trivial = distinct case whose direct call reached a verdict",
+        "differential enumeration: every configuration of the C04 product at CTAP2 level (operation, rk/up/uv, verification capability, validation outcome, pin-auth) x 4 store contents x {contract store, Arc<Mutex<MemoryStore>>} x PRF extension on/off x descriptor type {public-key, unknown}, store failures of find / save / update with seven status *values* (incl. Ctap1(Success), which shares byte 0x00 with Ctap2(Ok)), and getInfo for every capability combination, plus all pairs (thorough: triples) of operations on ONE authenticator with a capability change in between (verification / presence / store capability), each run once through the inherent method and once through <Authenticator as Ctap2Api> on identically seeded authenticators inside isolated worker processes (8 MiB stack, 30 s watchdog); compared: result (status byte or full response incl. RFC 6979 signature bytes; fresh ids/keys normalised), store snapshot, store/user-validation call log. Non-trivial = distinct case whose direct call reached a verdict",
         true,
         stats,
     );
